@@ -29,6 +29,54 @@ type vpC11Item struct {
 	ID      int
 	HasBody bool
 	Chunked bool // body sent with chunked transfer coding (two chunks)
+	QShape  int  // shape of the query string (number of arguments, keys without '=', empty values): see vpC11Query
+	FShape  int  // shape of the form body (kind "form")
+	CShape  int  // shape of the Cookie header
+}
+
+// vpC11Query: the query string of request id in shape sh, and the arguments a handler must see (key=value; a key
+// without '=' has the empty value). Requests of different shapes reuse argument slots in different ways: more or
+// fewer arguments than the request before, a valueless key where a valued one was.
+func vpC11Query(id string, sh int) (string, []string) {
+	switch sh {
+	case 1:
+		return "a=" + id, []string{"a=" + id}
+	case 2:
+		return "a=" + id + "&flag" + id, []string{"a=" + id, "flag" + id + "="}
+	case 3:
+		return "flag" + id, []string{"flag" + id + "="}
+	case 4:
+		return "a=" + id + "&b=x&c=y" + id + "&d", []string{"a=" + id, "b=x", "c=y" + id, "d="}
+	case 5:
+		return "", nil
+	case 6:
+		return "a=&b" + id + "=", []string{"a=", "b" + id + "="}
+	case 7:
+		return "a=" + id + "&b=x&zz=long-value-" + id + "&q", []string{"a=" + id, "b=x", "zz=long-value-" + id, "q="}
+	}
+	return "a=" + id + "&b=x", []string{"a=" + id, "b=x"}
+}
+
+func vpC11Form(id string, sh int) (string, []string) {
+	switch sh {
+	case 1:
+		return "f" + id + "=w" + id + "&g", []string{"f" + id + "=w" + id, "g="}
+	case 2:
+		return "g" + id, []string{"g" + id + "="}
+	case 3:
+		return "f" + id + "=w" + id + "&g=1&h=2&i", []string{"f" + id + "=w" + id, "g=1", "h=2", "i="}
+	}
+	return "f" + id + "=w" + id + "&g=1", []string{"f" + id + "=w" + id, "g=1"}
+}
+
+func vpC11Cookies(id string, sh int) (string, []string) {
+	switch sh {
+	case 1:
+		return "c" + id + "=v" + id + "; d=2; e" + id + "=3", []string{"c" + id + "=v" + id, "d=2", "e" + id + "=3"}
+	case 2:
+		return "c" + id + "=", []string{"c" + id + "="}
+	}
+	return "c" + id + "=v" + id, []string{"c" + id + "=v" + id}
 }
 
 type vpC11Snap struct {
@@ -59,21 +107,25 @@ func vpC11Request(it vpC11Item) (raw string, exp vpC11Snap) {
 	id := fmt.Sprint(it.ID)
 	exp.ID = id
 	exp.Method = it.Method
-	exp.URI = "/p" + id + "?a=" + id + "&b=x"
+	qs, qargs := vpC11Query(id, it.QShape)
+	exp.URI = "/p" + id
+	if qs != "" {
+		exp.URI += "?" + qs
+	}
 	exp.Path = "/p" + id
 	exp.Host = "h" + id + ".example"
 	exp.UA = "ua" + id
-	exp.Query = []string{"a=" + id, "b=x"}
+	exp.Query = qargs
 	exp.Hdrs = []string{"X-Id=" + id, "X-Extra-" + id + "=v" + id}
-	exp.Cookies = []string{"c" + id + "=v" + id}
+	cks, ckexp := vpC11Cookies(id, it.CShape)
+	exp.Cookies = ckexp
 	var b strings.Builder
-	fmt.Fprintf(&b, "%s %s HTTP/1.1\r\nHost: %s\r\nUser-Agent: %s\r\nX-Id: %s\r\nX-Extra-%s: v%s\r\nCookie: c%s=v%s\r\n", it.Method, exp.URI, exp.Host, exp.UA, id, id, id, id, id)
+	fmt.Fprintf(&b, "%s %s HTTP/1.1\r\nHost: %s\r\nUser-Agent: %s\r\nX-Id: %s\r\nX-Extra-%s: v%s\r\nCookie: %s\r\n", it.Method, exp.URI, exp.Host, exp.UA, id, id, id, cks)
 	body := ""
 	switch it.Kind {
 	case "form":
-		body = "f" + id + "=w" + id + "&g=1"
+		body, exp.Post = vpC11Form(id, it.FShape)
 		exp.CType = "application/x-www-form-urlencoded"
-		exp.Post = []string{"f" + id + "=w" + id, "g=1"}
 	case "multipart":
 		bd := "XBOUNDX" + id
 		body = "--" + bd + "\r\nContent-Disposition: form-data; name=\"m" + id + "\"\r\n\r\nval" + id + "\r\n--" + bd + "--\r\n"
@@ -304,6 +356,11 @@ func TestVP_C11_Histories(t *testing.T) {
 		for i := 0; i < n; i++ {
 			it := vpC11Item{Kind: rapid.SampledFrom(kinds).Draw(t, "kind"), ID: i + 1}
 			it.Method = "GET"
+			if rapid.Bool().Draw(t, "shaped") {
+				it.QShape = rapid.IntRange(0, 7).Draw(t, "qshape")
+				it.FShape = rapid.IntRange(0, 3).Draw(t, "fshape")
+				it.CShape = rapid.IntRange(0, 2).Draw(t, "cshape")
+			}
 			it.HasBody = rapid.Bool().Draw(t, "hasbody")
 			if it.Kind == "form" || it.Kind == "multipart" || it.Kind == "expect-reject" || it.HasBody {
 				it.Method = "POST"
